@@ -199,6 +199,26 @@ def api_variants(R, B, rng):
             case(f'store_address-anycast-{fname}', lambda: B.Builder().store_address(mk()), want,
                  lambda s: [('load_address', (lambda x: (x.wc, x.hash_part, x.anycast.depth, x.anycast.prefix if hasattr(x.anycast, 'prefix') else x.anycast.rewrite_pfx))(s.load_address()), (0, hp, depth, pfx))],
                  {'depth': depth})
+    # an address that fills the cell exactly: 267 bits (plain) or 272 + depth bits (anycast, every depth) stored with exactly that much room left
+    for depth in [0] + list(range(1, 31)):
+        hp = rng.randbytes(32)
+        a = Address((rng.choice([0, -1, 127, -128]), hp))
+        pfx = rng.getrandbits(depth) | (1 if depth else 0)
+        if depth:
+            a.set_anycast(depth, pfx)
+        abits = ('101' + f'{depth:05b}' + f'{pfx:0{depth}b}' if depth else '100') + f'{a.wc & 0xFF:08b}' + bits_of_bytes(hp)
+        fill = gen.rand_bits(rng, 1023 - len(abits))
+        case('store_address-exact-fit', lambda: B.Builder().store_bits(fill).store_address(a), fill + abits,
+             lambda s: [('skip', s.skip_bits(len(fill)) is not None, True), ('preload_address', (lambda x: (x.wc, x.hash_part, x.anycast is not None))(s.preload_address()), (a.wc, hp, bool(depth))),
+                        ('load_address', (lambda x: (x.wc, x.hash_part, x.anycast is not None))(s.load_address()), (a.wc, hp, bool(depth))), ('nothing left', s.remaining_bits, 0)],
+             {'anycast_depth': depth})
+    # a bit read from a slice (load_bits(1) / preload_bits(1) hand out a bit array) stored with store_bit is that bit
+    for bit in '01':
+        for how in ('load_bits', 'preload_bits'):
+            src = B.Builder().store_bits(bit + '1011').end_cell().begin_parse()
+            got_bit = getattr(src, how)(1)
+            case(f'store_bit-of-{how}', lambda: B.Builder().store_bit_int(1).store_bit(got_bit).store_bit_int(0), '1' + bit + '0',
+                 lambda s: [('load_bit', s.load_bit(), 1), ('the bit', s.load_bit(), int(bit)), ('load_bit', s.load_bit(), 0)], {'bit': bit, 'how': how})
     # Address from an Address, from its raw and friendly text, stored through store_address(str)
     for wc in (0, -1, 127, -128):
         hp = rng.randbytes(32)
